@@ -53,9 +53,23 @@ pub fn init() {
     });
 }
 
+static KNOWN: std::sync::OnceLock<Vec<crate::runner::Known>> = std::sync::OnceLock::new();
+
+fn known() -> &'static Vec<crate::runner::Known> {
+    KNOWN.get_or_init(|| {
+        let dir = std::path::PathBuf::from(std::env::var("VERIF_DIR").unwrap_or_else(|_| "/verif".into()));
+        crate::runner::load_known(&dir)
+    })
+}
+
 /// Report a semantic violation found inside a fuzz target and crash, so that
-/// libFuzzer saves the input as an artifact.
-pub fn violation(msg: &str) -> ! {
-    eprintln!("FUZZ-VIOLATION: {msg}");
+/// libFuzzer saves the input as an artifact.  A failure whose signature is a
+/// listed known finding (known_findings.txt, any of `props`) is tolerated so
+/// that campaigns do not rediscover one crash forever.
+pub fn report(f: &crate::runner::Failure, props: &[&str]) {
+    if !f.key.is_empty() && known().iter().any(|k| k.key == f.key && props.contains(&k.property.as_str())) {
+        return;
+    }
+    eprintln!("FUZZ-VIOLATION: {} [key {}]", f.message, f.key);
     std::process::abort();
 }
